@@ -72,7 +72,13 @@ class SimultaneousScheduler(Scheduler):
 
         self.current_time = time
 
-        self.progress = self.current_time / model.stoptime
+        # progress = share of the run's steps (rounds starttime..stoptime, round(1/dt) steps each) that are
+        # done once this step is; it is exactly 1.0 in the last step for any start/stop time, including
+        # stoptime <= 0 (current_time / stoptime divided by zero or stayed below 1 there)
+        steps_per_round = round(1 / model.dt)
+        total_steps = (model.stoptime - model.starttime + 1) * steps_per_round
+        done_steps = (sim_round - model.starttime) * steps_per_round + step + 1
+        self.progress = done_steps / total_steps if total_steps > 0 else 1.0
 
         if progress_widget:
             progress_widget.value = self.progress
